@@ -163,3 +163,27 @@ def as_shape(rows, shape: str) -> np.ndarray:
 def rows_of(a) -> np.ndarray:
     a = np.asarray(a, dtype=float)
     return a[None, :] if a.ndim == 1 else a
+
+
+# ---------------------------------------------------------------------------------------------
+# reporting: keep the (capped) violation / disagreement lists diverse
+
+
+def violate(ctx, key: str, what: str, case, per_key: int = 2):
+    """ctx.violate, at most `per_key` replays per stable key (every failure is still counted)"""
+    seen = ctx.extra.setdefault("_per_key", {})
+    seen[key] = seen.get(key, 0) + 1
+    ctx.count("oracle:" + key)
+    if seen[key] <= per_key:
+        ctx.violate(key, what, case)
+    else:
+        ctx.count("oracle_failures")
+
+
+def disagree(ctx, name: str, case, model, impl, per_name: int = 3):
+    seen = ctx.extra.setdefault("_per_name", {})
+    seen[name] = seen.get(name, 0) + 1
+    if seen[name] <= per_name:
+        ctx.disagree(name, case, model, impl)
+    else:
+        ctx.count("disagreements")
